@@ -85,7 +85,7 @@ func boundedDecodeNoPanic() (ok bool) {
 		}
 		limit := 10
 		if hThorough() {
-			limit = len(seed)
+			limit = 24
 		}
 		for pos := 0; pos < len(seed) && pos < limit; pos++ { // every value of the header bytes
 			for x := 0; x < 256; x++ {
@@ -105,7 +105,7 @@ func boundedDecodeNoPanic() (ok bool) {
 	sets := validSets()
 	step := 5
 	if hThorough() {
-		step = 1
+		step = 2
 	}
 	for si := 0; si < len(sets); si += step {
 		c := sets[si]
